@@ -77,8 +77,14 @@ impl Visitor<StatementPos> for InstructionGenerator {
                     self.push(Instruction::ResumeNext, pos);
                 }
                 ResumeOption::Label(label) => {
+                    let (for_depth, select_depth) =
+                        self.label_depths.get(&label).copied().unwrap_or((0, 0));
                     self.push(
-                        Instruction::ResumeLabel(AddressOrLabel::Unresolved(label)),
+                        Instruction::ResumeLabel(
+                            AddressOrLabel::Unresolved(label),
+                            for_depth,
+                            select_depth,
+                        ),
                         pos,
                     );
                 }
